@@ -210,7 +210,8 @@ def gen_args(rng, lib, in_body, tags):
     return args[:6]
 
 
-LIBT = {"ta": "[{{{1|}}}]", "tb": "<{{{1|}}}|{{{n|dn}}}>", "tc": " x{{{2| d2 }}} ", "td": "* li"}
+# (delimiters that are not wikitext syntax: nested "[..]" would form [[links]], "<..>" could look like tags)
+LIBT = {"ta": "\u27e8{{{1|}}}\u27e9", "tb": "\u27e6{{{1|}}}\u00a6{{{n|dn}}}\u27e7", "tc": " x{{{2| d2 }}} ", "td": "* li"}
 LIBA = {k: None for k in LIBT}
 
 
@@ -218,8 +219,8 @@ def lib_ast():
     # ASTs equivalent to LIBT for the reference evaluator
     T = lambda s: ("T", s)
     S = lambda *x: ("S", list(x))
-    return {"ta": S(T("["), ("P", "1", "1", S(T(""))), T("]")),
-            "tb": S(T("<"), ("P", "1", "1", S(T(""))), T("|"), ("P", "n", "n", S(T("dn"))), T(">")),
+    return {"ta": S(T("\u27e8"), ("P", "1", "1", S(T(""))), T("\u27e9")),
+            "tb": S(T("\u27e6"), ("P", "1", "1", S(T(""))), T("\u00a6"), ("P", "n", "n", S(T("dn"))), T("\u27e7")),
             "tc": S(T(" x"), ("P", "2", "2", S(T(" d2 "))), T(" ")),
             "td": S(T("* li"))}
 
